@@ -215,7 +215,12 @@ def run_one(cfg, tape, want_trace=False):
             faults = FsFaults(tape, cfg.get('fault', 'none') if phase == 0 or cfg.get('fault') == 'mix'
                               else 'none', stats)
             faults.kernel = k
-            simos = SimOS(k, exists=os.path.exists, edeadlk=True, faults=faults, stats=stats)
+            def create_lock_file(path):
+                fd = simfs._orig['os_open'](path, os.O_CREAT | os.O_WRONLY, 0o666)
+                os.close(fd)
+
+            simos = SimOS(k, exists=os.path.exists, create=create_lock_file, edeadlk=True, faults=faults,
+                          stats=stats)
             fs = simfs.SimFS(root, kernel=k, tape=tape, faults=faults, stats=stats,
                              pid_of=lambda k=k: (k.me().pid if k.me() is not None else 0))
             mods = {}
